@@ -32,7 +32,7 @@ class Target:
         self.zero_coord = int(zero_coord)
         self.shift = float(shift)
         self.mix = mix  # optional second mode: dict(centre=[..], logamp=float)
-        self.lkind = list(lkind) if lkind else ["gauss"] * self.d  # 'gauss' | 'vm' (von Mises in x, kappa = width)
+        self.lkind = list(lkind) if lkind else ["gauss"] * self.d  # 'gauss' | 'vm' (von Mises in x, kappa = width) | 'flat' (no dependence on this coordinate)
         self.n_points = 0
         self.n_calls = 0
         self.n_finite = 0
@@ -54,6 +54,8 @@ class Target:
 
     # ---- pure (uncounted) reference evaluation of one row
     def _term(self, xj, cj, j):
+        if self.lkind[j] == "flat":
+            return 0.0  # plateau: every supported point has exactly the same likelihood
         if self.lkind[j] == "vm":
             return self.width[j] * (math.cos(2.0 * math.pi * (xj - cj)) - 1.0)
         t = (xj - cj) / self.width[j]
